@@ -163,6 +163,7 @@ func (s *supervisor) processDied(r *processorRequestDied) {
 
 	// Okay, so a Runnable has quit. What now?
 	n := s.nodeByDN(r.dn)
+	n.exited = true
 	ctx := n.ctx
 
 	// Simple case: it was marked as Done and quit with no error.
@@ -308,7 +309,9 @@ func (s *supervisor) processGC() {
 		curReady := false
 		switch cur.state {
 		case nodeStateDone:
-			curReady = true
+			// A runnable that signaled DONE may not have returned yet: restarting the subtree now would run two
+			// instances of it, and its late exit would be attributed to the new node (or to no node at all).
+			curReady = cur.exited
 		case nodeStateCanceled:
 			curReady = true
 		case nodeStateDead:
